@@ -30,7 +30,11 @@ def clause(col, oid, results, post, hyps=(), select=None, sample=False):
     for r in results:
         if select is not None and not select(r):
             continue
-        g = post(r)
+        try:
+            g = post(r)
+        except (LookupError, AttributeError, TypeError, z3.Z3Exception) as e:
+            # the value a clause looks at does not have the expected form any more (e.g. no longer a term): nothing can be concluded
+            return col.undecided(oid, f'the clause cannot be evaluated on this path ({type(e).__name__}: {str(e)[:120]})')
         if g is None:
             continue
         if isinstance(g, _Unrecognised):
@@ -48,8 +52,12 @@ def canary(col, oid, results, post, hyps=(), select=None):
     for r in results:
         if select is not None and not select(r):
             continue
-        g = post(r)
-        if g is None:
+        try:
+            g = post(r)
+        except (LookupError, AttributeError, TypeError, z3.Z3Exception) as e:
+            # a deliberately wrong clause that cannot even be stated on the code under test says nothing about the checker
+            return col.undecided(oid, f'canary cannot be evaluated on this path ({type(e).__name__}: {str(e)[:120]})')
+        if g is None or isinstance(g, _Unrecognised):
             continue
         g = z3.BoolVal(g) if isinstance(g, bool) else g
         goals.append(z3.Implies(pcs(r), g))
